@@ -16,6 +16,12 @@ CLAIMED = {
  "C13": ("seq.norecv (all orders of dropping receivers, then every send entry point) + concurrent family norecv (last receiver's drop racing retrying / spinning / parking senders): Disconnected with the identical payload, sink future resolves, no send loop hangs", "5 C13"),
  "C15": ("seq.fut (sequential Sink/Stream histories against the model, incl. fresh never-wrapped queues), fut.direct (direct try_recv/recv on futures receivers under concurrency; C01-C03 oracles through futures handles), fut.solo (poll / start_send run with every other thread frozen: bounded own steps, never blocks)", "5 C15"),
  "C18": ("families core.solo / shared.solo on busy/yielding queues: a single try_send / try_recv / try_recv_view with every other thread frozen at an arbitrary operation must return within 2000 own steps and never block on a lock", "5 C18"),
+ "C05": ("seq.ledger + concurrent family teardown (the scheduler decides whose drop is last and what is in flight) + core: per-instance birth/clone/drop ledger, every payload and clone dropped exactly once; the hazardous sub-family `mpmc second stream` is generated only here (known finding D11)", "5 C05"),
+ "C10": ("families addstream.sole and addstream.sibling: the new stream drained by a freshly spawned thread must be a gap-free suffix starting inside the interval the parent position swept during the call; C01/C02/C03 oracles and the C06 probe on all other streams; the hazardous sub-family addstream.sibling is generated only here (known finding D10)", "5 C10"),
+ "C11": ("family removal: isolated sends after a removal must equal the model (refused iff the slowest remaining stream has N outstanding), producers in retry loops must finish (quiescence detector), remaining streams pass C01-C03 and the C06 probe, unsubscribe's bool checked against handle lifetimes", "5 C11"),
+ "C12": ("family churn: sender count 1->2->1 and consumers per stream 1->2->1 by clone / drop / unsubscribe / into_single / into_multi with clones handed to freshly spawned threads, C01+C02+C03 oracles and C06 probe unchanged", "5 C12"),
+ "C16": ("family reclaim with the allocation seam in quarantine mode: every atomic operation, lock and guarded ReaderGroup dereference is checked against the set of freed blocks; double / invalid frees are reported at the free", "5 C16"),
+ "C17": ("seq.teardown (attributed live bytes return to zero after the last handle), seq.churn (100-800 cycles, every fixed handle operating in every cycle, with and without an earlier drop of a non-last handle: plateau oracle), concurrent reclaim.count", "5 C17"),
 }
 NA = {
  "C19": "compile-time trait-bound fact (Send/Sync inference); no schedule, clock, fault or history for a simulator to run - see DESIGN.md section 5 C19",
